@@ -389,17 +389,19 @@ class ASTSchemaPrinter:
     def print_schema_definition(self, schema: Schema) -> str:
         directives = self.print_directives(schema)
 
+        def _is_implied(root_type, default_name):
+            # The schema definition can only be omitted when re-reading the
+            # document would infer the same root types: a missing root must
+            # not be shadowed by a type carrying the conventional name.
+            if root_type is None:
+                return default_name not in schema.types
+            return root_type.name == default_name
+
         if (
             not directives
-            and (not schema.query_type or schema.query_type.name == "Query")
-            and (
-                not schema.mutation_type
-                or schema.mutation_type.name == "Mutation"
-            )
-            and (
-                not schema.subscription_type
-                or schema.subscription_type.name == "Subscription"
-            )
+            and _is_implied(schema.query_type, "Query")
+            and _is_implied(schema.mutation_type, "Mutation")
+            and _is_implied(schema.subscription_type, "Subscription")
         ):
             return ""
 
